@@ -277,6 +277,12 @@ func drawLexeme(t *rapid.T, p specgen.Prim, label string) (string, string) {
 // CheckC04: query/header parsing rejects exactly the malformed requests.
 func CheckC04(p *Pkg, e *Env, r *res.Result) {
 	in := NewInst(p)
+	// an api key in the query may share its name with a declared query parameter: the
+	// authenticators admit everything here, the parameter is parsed as always
+	if p.Doc.Components != nil && len(p.Doc.Components.SecuritySchemes) > 0 {
+		var authEvents []string
+		NewSecHarness(in, &authEvents).InstallAcceptAll()
+	}
 	type opInfo struct {
 		op    *Op
 		decls []ParamDecl
@@ -448,6 +454,12 @@ func CheckC04(p *Pkg, e *Env, r *res.Result) {
 		}
 		if pan != "" {
 			fail("panic", firstLine(pan))
+			return
+		}
+		if len(in.Calls) == 0 && len(p.Doc.EffectiveSecurity(oi.op.Spec)) > 0 {
+			// a secured operation whose credential (an api key in the query, named like one
+			// of the declared parameters) was not supplied: refused before the handler
+			r.Label("secured:credential-not-supplied")
 			return
 		}
 		if len(in.Calls) != 1 {
